@@ -53,6 +53,27 @@ def run(ctx):
     ctx.audit()
     ctx.check_theorems("EmbossV.Layout.Properties_C14", "Layout/Properties_C14.v", expect_min=10)
 
+    # ---- cases ---------------------------------------------------------------------------
+    cases = []
+    for nm, text, exp in load_corpus_cases():
+        cases.append(("corpus:" + nm, text, "m.emb", None, None, exp))
+    for p in sorted(glob.glob(os.path.join(fw.REPO, "testdata", "*.emb"))):
+        rel = os.path.relpath(p, fw.REPO)
+        if not ctx.thorough() and os.path.getsize(p) > 2500:
+            ctx.count("skipped-in-quick-tier:large-testdata-file")
+            continue
+        cases.append(("testdata:" + rel, open(p).read(), rel, None, None, {}))
+    n_base = 24 if ctx.thorough() else 2
+    for i in range(n_base):
+        base = gt.Base(ctx.rng, depth=ctx.rng.choice([1, 2, 2]))
+        c = base.case()
+        cases.append(("gen:%d:base" % i, c.text(), "m.emb", None, c, {}))
+        for v in gt.c14_cases(base, ctx.rng):
+            cases.append(("gen:%d:%s" % (i, v.rule), v.text(), "m.emb", None, v, {}))
+    order = sorted(range(len(cases)), key=lambda i: -len(cases[i][1]))
+    pool = multiprocessing.Pool(min(fw.NPROC, 16))
+    pending = pool.map_async(tx.analyse_c14, [(cases[i][1], cases[i][2], cases[i][3], fw.REPO) for i in order], chunksize=1)
+
     # ---- (T) tables ------------------------------------------------------------------
     tables_ok = True
     broken = None
@@ -79,22 +100,12 @@ def run(ctx):
     else:
         hdr = (HEADER + "Definition T_run : tables := ex_T.\n")
 
-    # ---- cases ---------------------------------------------------------------------------
-    cases = []
-    for nm, text, exp in load_corpus_cases():
-        cases.append(("corpus:" + nm, text, "m.emb", None, None, exp))
-    for p in sorted(glob.glob(os.path.join(fw.REPO, "testdata", "*.emb"))):
-        rel = os.path.relpath(p, fw.REPO)
-        cases.append(("testdata:" + rel, open(p).read(), rel, None, None, {}))
-    n_base = 24 if ctx.thorough() else 2
-    for i in range(n_base):
-        base = gt.Base(ctx.rng, depth=ctx.rng.choice([1, 2, 2]))
-        c = base.case()
-        cases.append(("gen:%d:base" % i, c.text(), "m.emb", None, c, {}))
-        for v in gt.c14_cases(base, ctx.rng):
-            cases.append(("gen:%d:%s" % (i, v.rule), v.text(), "m.emb", None, v, {}))
-    with multiprocessing.Pool(min(fw.NPROC, 16)) as pool:
-        results = pool.map(tx.analyse_c14, [(t, n, e, fw.REPO) for _, t, n, e, _, _ in cases], chunksize=4)
+    results_sorted = pending.get()
+    pool.close()
+    pool.join()
+    results = [None] * len(cases)
+    for k, i in enumerate(order):
+        results[i] = results_sorted[k]
 
     seen = {}
 
